@@ -12,7 +12,7 @@ open OpmVerif.Lex OpmVerif.Tok OpmVerif.Scan
 /-- two record buffers that differ in one separator run outside (tokeniser) quotes. -/
 def SepEq (x y : Bytes) : Prop :=
   ∃ p s s' q, x = p ++ s ++ q ∧ y = p ++ s' ++ q ∧ p ≠ [] ∧ s ≠ [] ∧ s' ≠ [] ∧
-    (∀ c ∈ s, isSep c = true) ∧ (∀ c ∈ s', isSep c = true) ∧ tokState none p ≠ some true
+    (∀ c ∈ s, isSep c = true) ∧ (∀ c ∈ s', isSep c = true) ∧ OutsideP p
 
 theorem sep_ne_quote39 (c : UInt8) (h : isSep c = true) : c ≠ 39 := by
   intro e; subst e; revert h; decide
@@ -33,13 +33,13 @@ theorem afterExtend_cont (k : Kw) (buf : Bytes) (h1 : isTerminator buf = false)
   simp [h1, h2]
 
 theorem afterExtend_rec_none (k : Kw) (buf : Bytes) (h1 : isTerminator buf = false)
-    (h2 : isTerminatedRecordString buf = true) (h3 : rawRecord buf.dropLast 47 = none) :
+    (h2 : isTerminatedRecordString buf = true) (h3 : rawRecord buf.dropLast = none) :
     afterExtend k buf = .err := by
   unfold afterExtend
   simp [h1, h2, h3]
 
 theorem afterExtend_rec_some (k : Kw) (buf : Bytes) (toks : List Bytes) (h1 : isTerminator buf = false)
-    (h2 : isTerminatedRecordString buf = true) (h3 : rawRecord buf.dropLast 47 = some toks) :
+    (h2 : isTerminatedRecordString buf = true) (h3 : rawRecord buf.dropLast = some toks) :
     afterExtend k buf = if (k.addRecord toks).finished then .done (k.addRecord toks) false
       else .cont (k.addRecord toks) [] [] := by
   unfold afterExtend
@@ -56,7 +56,7 @@ theorem afterExtend_unget (k k' : Kw) (buf : Bytes) (u : Bool) (h : afterExtend 
   · rw [if_neg h1] at h
     by_cases h2 : isTerminatedRecordString buf = true
     · rw [if_pos h2] at h
-      cases hr : rawRecord buf.dropLast 47 with
+      cases hr : rawRecord buf.dropLast with
       | none => rw [hr] at h; cases h
       | some toks =>
         rw [hr] at h
@@ -124,13 +124,13 @@ theorem afterExtend_sepEq (k : Kw) (x y : Bytes) (h : SepEq x y) :
       have hdl : ∀ (t : Bytes), (p ++ t ++ q).dropLast = p ++ t ++ q.dropLast := by
         intro t
         rw [List.dropLast_append_of_ne_nil hq]
-      have hraw : rawRecord (p ++ s ++ q.dropLast) 47 = rawRecord (p ++ s' ++ q.dropLast) 47 := by
+      have hraw : rawRecord (p ++ s ++ q.dropLast) = rawRecord (p ++ s' ++ q.dropLast) := by
         unfold rawRecord
         have he : evenQuotes (p ++ s ++ q.dropLast) = evenQuotes (p ++ s' ++ q.dropLast) := by
           unfold evenQuotes
           simp only [List.filter_append, filter39_sep s hsep, filter39_sep s' hsep', List.append_nil]
-        rw [he, split_sep_congr p s s' q.dropLast 47 hs hs' hsep hsep' hout]
-      cases hr : rawRecord (p ++ s' ++ q.dropLast) 47 with
+        rw [he, split_sep_congr p s s' q.dropLast hs hs' hsep hsep' hout]
+      cases hr : rawRecord (p ++ s' ++ q.dropLast) with
       | none =>
         rw [afterExtend_rec_none k _ hx ht' (by rw [hdl, hraw, hr]),
           afterExtend_rec_none k _ hy ht (by rw [hdl, hr])]
@@ -195,7 +195,7 @@ theorem feedLines_gap_empty (recog : Bytes → Bool) : ∀ (lines : List Bytes) 
     simp only [feedLines, feedLine, extendBuf, List.isEmpty_nil, ↓reduceIte]
 
 theorem feedLines_gap (recog : Bytes → Bool) : ∀ (lines : List Bytes) (k : Kw) (buf gap gap' : Bytes),
-    buf ≠ [] → tokState none buf ≠ some true → (∀ c ∈ gap, isSep c = true) → (∀ c ∈ gap', isSep c = true) →
+    buf ≠ [] → OutsideP buf → (∀ c ∈ gap, isSep c = true) → (∀ c ∈ gap', isSep c = true) →
     feedLines recog k buf gap lines = feedLines recog k buf gap' lines := by
   intro lines
   induction lines with
@@ -233,7 +233,7 @@ theorem feedLines_gap (recog : Bytes → Bool) : ∀ (lines : List Bytes) (k : K
 a keyword changes nothing**, provided it does not fall inside a quoted token that spans
 lines. -/
 theorem feedLines_empty_line (recog : Bytes → Bool) (k : Kw) (buf gap : Bytes) (lines : List Bytes)
-    (hgap : ∀ c ∈ gap, isSep c = true) (hout : buf = [] ∨ tokState none buf ≠ some true) :
+    (hgap : ∀ c ∈ gap, isSep c = true) (hout : buf = [] ∨ OutsideP buf) :
     feedLines recog k buf gap ([] :: lines) = feedLines recog k buf gap lines := by
   simp only [feedLines, feedLine, List.isEmpty_nil, ↓reduceIte]
   by_cases hb : buf = []
@@ -242,7 +242,7 @@ theorem feedLines_empty_line (recog : Bytes → Bool) (k : Kw) (buf gap : Bytes)
     exact feedLines_gap_empty recog lines k [] gap
   · have hbe : buf.isEmpty = false := by cases buf <;> simp_all
     simp only [hbe, Bool.false_eq_true, ↓reduceIte]
-    have hout' : tokState none buf ≠ some true := by
+    have hout' : OutsideP buf := by
       rcases hout with h | h
       · exact absurd h hb
       · exact h
@@ -309,7 +309,7 @@ theorem endState_none_last (a : Bytes) : ∀ (st : Option UInt8), StateOk st →
 /-- **`assemble_linebreak`** — for an ordinary (not raw-string) keyword, breaking a line of
 a record in two at a separator run `s` gives the same raw keyword and the same remaining
 lines, provided that: the break is outside quotes (`ha`: for `find_terminator`, which
-honours `'` and `"`; `hout`: for the tokeniser, which honours `'`), the first part holds no
+honours `'` and `"`; `hout`: for the tokeniser, which honours `'` and the quoted part of `n*'…'`), the first part holds no
 terminating slash (`ha`), and neither part is taken for the start of the next keyword
 while the keyword could already be complete (`hra`, `hrb` — the property's "continuation
 does not begin with a keyword-like word"). -/
@@ -317,7 +317,7 @@ theorem assemble_linebreak (recog : Bytes → Bool) (k : Kw) (hraw : k.raw = fal
     (buf gap a s b : Bytes) (rest : List Bytes)
     (hane : a ≠ []) (hbne : b ≠ []) (hs : s ≠ []) (hsep : ∀ c ∈ s, isSep c = true)
     (ha : BalancedNoSlash a)
-    (hout : tokState none (extendBuf buf gap a) ≠ some true)
+    (hout : OutsideP (extendBuf buf gap a))
     (hra : (k.canComplete && recog (makeDeckName a)) = false)
     (hrb : (k.canComplete && recog (makeDeckName b)) = false) :
     feedLines recog k buf gap ((a ++ s ++ b) :: rest) = feedLines recog k buf gap (a :: b :: rest) := by
